@@ -311,7 +311,8 @@ def replay(ctx, doc):
 COMMON_TRUSTED = [
     'harness/minisql: my in-memory engine for the MySQL subset used by batch/sql and the handlers (stands in for MySQL 8 / InnoDB '
     'semantics: 3VL, SELECT INTO, error 1242/1062/1452/1644, triggers per row, ROW_COUNT, user variables, transactions as snapshots)',
-    'harness/batchdb/runner.py SUBSTITUTIONS (auth wrappers skipped, schedule_job = the CALL it issues, fake select_inst_coll, virtual clock, no network)',
+    'harness/batchdb/runner.py SUBSTITUTIONS (auth wrappers skipped, schedule_job = the real function without its state assert / job config / worker POST, '
+    'fake select_inst_coll, virtual clock, no network)',
     'harness/batchdb/corr.py canonicalisation (strings interned per history, token shards and billing days summed, all-zero counter rows dropped)',
     'loader stubs/shims (harness/loader)',
 ]
